@@ -320,6 +320,29 @@ RULES = {
 }
 
 
+
+def set_filters(p, cfg):
+    """Puts the settings of `cfg` on the parser the way a caller may: by assigning new objects, or - when cfg['how'] is
+    'inplace' and the attribute still is a list - by mutating the list the parser already holds (append / extend /
+    clear / slice assignment).  The parser hands out plain lists (`filter_class = []`), so both are ordinary use."""
+    p.filter_tid = cfg['tid']
+    conv = tuple if cfg['tuple'] else list
+    for attr, vals in (('filter_class', cfg['classes']), ('filter_subclass', cfg['subs'])):
+        cur = getattr(p, attr)
+        how = cfg.get('how', 'assign')
+        if how == 'assign' or not isinstance(cur, list) or cfg['tuple']:
+            setattr(p, attr, conv(vals))
+        elif how == 'clear-extend':
+            cur.clear()
+            cur.extend(vals)
+        elif how == 'slice':
+            cur[:] = vals
+        else:                                   # 'append': drop what is not wanted, append what is missing, keep order
+            del cur[:]
+            for v in vals:
+                cur.append(v)
+
+
 def reuse_section(rep, rng, tier):
     """One PyKdebugParser object, the same stream listed several times while the caller changes the filter
     attributes in between: every listing must be the restriction by the CURRENT settings (no verdict, table or
@@ -330,7 +353,7 @@ def reuse_section(rep, rng, tier):
     from pykdebugparser.pykdebugparser import PyKdebugParser
     sec = rep.section('reuse')
     sec['rule'] = ('one parser object x 3-5 successive requests on the same v2 stream with the filter attributes changed in '
-                   'between (tid / class / subclass / explicit class argument); each listing vs the model and vs the '
+                   'between (tid / class / subclass / explicit class argument; by assignment or by mutating the lists the parser holds); each listing vs the model and vs the '
                    'declarative predicate under the settings in force at that request')
     n = 120 if tier == 'quick' else 3000
     for _ in range(n):
@@ -342,13 +365,14 @@ def reuse_section(rep, rng, tier):
         for _k in range(rng.randrange(3, 6)):
             cfg = gen_cfg(rng, items)
             cfg['proc'] = None
+            cfg['how'] = rng.choice(['assign', 'assign', 'clear-extend', 'slice', 'append'])
+            if cfg['how'] != 'assign' and rng.random() < 0.8:
+                cfg['tuple'] = False
             steps.append(cfg)
         lines, gots, cases = [], [], []
         for cfg in steps:
             conv = tuple if cfg['tuple'] else list
-            p.filter_tid = cfg['tid']
-            p.filter_class = conv(cfg['classes'])
-            p.filter_subclass = conv(cfg['subs'])
+            set_filters(p, cfg)
             fc_arg = None if cfg['fc_arg'] is None else conv(cfg['fc_arg'])
             case = {'kind': 'v2', 'cfg': cfg, 'items': items}
             try:
@@ -515,7 +539,7 @@ def replay(path):
         bad = 0
         for cfg in rp['steps']:
             conv = tuple if cfg['tuple'] else list
-            p.filter_tid, p.filter_class, p.filter_subclass = cfg['tid'], conv(cfg['classes']), conv(cfg['subs'])
+            set_filters(p, cfg)
             fc_arg = None if cfg['fc_arg'] is None else conv(cfg['fc_arg'])
             case = {'kind': 'v2', 'cfg': cfg, 'items': items}
             try:
